@@ -410,161 +410,178 @@ func runC04(c *fw.Ctx) {
 							for _, desc := range []bool{false, true} {
 								for tagMode := 0; tagMode <= 3; tagMode++ {
 									for csi, codes := range codeSets {
-										if csi > 0 && (len(rl) != 2 || tagMode != 0 || qu != 0 || ann || desc || qi != 0) {
-											continue // the same code twice varies against an otherwise default method
-										}
-										if c.Expired() {
-											return
-										}
-										// tagMode: 0 no Tags, 1 the method's own Tags, 2 Tags of the enclosing URL, 3 both
-										isURL := strings.HasPrefix(pl, "url-")
-										if tagMode >= 2 && !isURL {
-											continue
-										}
-										if tagMode != 0 && (qu != 0 || ann || desc || qi > 1 || len(rl) > 1) {
-											continue // deviation bound: Tags vary against an otherwise default method
-										}
-										// deviation bound on the "small" attributes: at most two of {query, annotation, description} depart from default together with a non-default request
-										dev := 0
-										if qu != 0 {
-											dev++
-										}
-										if ann {
-											dev++
-										}
-										if desc {
-											dev++
-										}
-										if qi != 0 && len(rl) == 2 && dev > 1 {
-											continue
-										}
-										e := exp{}
-										m := doc.N("POST")
-										if ann {
-											m.Ann = "does things"
-										}
-										if desc {
-											m.Kids = append(m.Kids, doc.N("Description").WithBody("Long text\n  indented more"))
-										}
-										if qy.build != nil {
-											m.Kids = append(m.Kids, qy.build())
-										}
-										if q.build != nil {
-											m.Kids = append(m.Kids, q.build())
-										}
-										for k, ri := range rl {
-											m.Kids = append(m.Kids, rf[ri].build(codes[k]))
-										}
-										if tagMode == 1 || tagMode == 3 {
-											m.Kids = append(m.Kids, doc.N("Tags", "@own"))
-										}
-										path := "/focus"
-										id := "http POST " + path
-										nodes := []*doc.Node{doc.Jsight()}
-										nodes = append(nodes, fillerTypes(e)...)
-										var ids []string
-										other := doc.N("GET").WithKids(doc.N("204", "empty"))
-										switch pl {
-										case "after-tagged-url":
-											// an implicit URL block with URL-level Tags, directly followed by the path-bearing focus
-											nodes = append(nodes, doc.N("TAG", "@grp"), doc.N("URL", "/tagged").WithKids(doc.N("Tags", "@grp"), doc.N("GET").WithKids(doc.N("204", "empty"))))
-											m.Params = []string{path}
-											nodes = append(nodes, m)
-											ids = []string{"http GET /tagged", id}
-											e["$.interactions.http GET /tagged.tags[0]"] = "@grp"
-										case "top":
-											m.Params = []string{path}
-											m.Paren = len(m.Kids) > 0
-											nodes = append(nodes, m)
-											ids = []string{id}
-										default:
-											u := doc.N("URL", path)
-											u.Paren = strings.Contains(pl, "paren")
-											if tagMode >= 2 {
-												u.Kids = append(u.Kids, doc.N("Tags", "@ugrp"))
+										for kidOrder := 0; kidOrder <= 1; kidOrder++ {
+											if kidOrder == 1 && (csi > 0 || tagMode > 1 || len(rl) == 0 || (qu == 0 && !desc && qi == 0)) {
+												continue // the order of the children varies when there is something besides responses
 											}
-											m.Paren = len(m.Kids) > 0 // keep the focus self-delimiting inside the block
-											if strings.HasSuffix(pl, "first") {
-												u.Kids = append(u.Kids, m, other)
-												ids = []string{id, "http GET " + path}
-											} else {
-												u.Kids = append(u.Kids, other, m)
-												ids = []string{"http GET " + path, id}
+											if csi > 0 && (len(rl) != 2 || tagMode != 0 || qu != 0 || ann || desc || qi != 0) {
+												continue // the same code twice varies against an otherwise default method
 											}
-											nodes = append(nodes, u)
-										}
-										nodes = append(nodes, doc.N("TYPE", "@after", "any"))
-										e[keysPath("interactions")] = strings.Join(ids, "|")
-										e[keysPath("userTypes")] = "@t|@u|@after"
-										e["$.info"] = absent
-										e["$.servers"] = absent
-										e["$.userEnums"] = absent
-										e["$.jsight"] = "0.3"
-										p := "$.interactions." + id
-										e[p+".id"] = id
-										e[p+".protocol"] = "http"
-										e[p+".httpMethod"] = "POST"
-										e[p+".path"] = path
-										e[p+".pathVariables"] = absent
-										e[p+".tags.#len"] = "1"
-										switch tagMode {
-										case 0:
-											e[p+".tags[0]"] = "@focus"
-										case 1, 3:
-											e[p+".tags[0]"] = "@own" // the method's own Tags win
-										case 2:
-											e[p+".tags[0]"] = "@ugrp"
-										}
-										if tagMode != 0 {
-											nodes = append(nodes, doc.N("TAG", "@own").WithAnn("Own"), doc.N("TAG", "@ugrp"))
-											e["$.tags.@own.title"] = "Own"
-											e["$.tags.@ugrp.title"] = "@ugrp"
-											if isURL {
-												// the sibling method has no Tags of its own
-												sib := "@focus"
-												if tagMode >= 2 {
-													sib = "@ugrp"
-												}
-												e["$.interactions.http GET "+path+".tags.#len"] = "1"
-												e["$.interactions.http GET "+path+".tags[0]"] = sib
+											if c.Expired() {
+												return
 											}
-										}
-										if ann {
-											e[p+".annotation"] = "does things"
-										} else {
-											e[p+".annotation"] = absent
-										}
-										if desc {
-											e[p+".description"] = "Long text\n  indented more"
-										} else {
-											e[p+".description"] = absent
-										}
-										qy.exp(e, p+".query")
-										q.exp(e, p+".request")
-										if len(rl) == 0 {
-											e[p+".responses"] = absent
-										} else {
-											e[p+".responses.#len"] = fmt.Sprint(len(rl))
+											// tagMode: 0 no Tags, 1 the method's own Tags, 2 Tags of the enclosing URL, 3 both
+											isURL := strings.HasPrefix(pl, "url-")
+											if tagMode >= 2 && !isURL {
+												continue
+											}
+											if tagMode != 0 && (qu != 0 || ann || desc || qi > 1 || len(rl) > 1) {
+												continue // deviation bound: Tags vary against an otherwise default method
+											}
+											// deviation bound on the "small" attributes: at most two of {query, annotation, description} depart from default together with a non-default request
+											dev := 0
+											if qu != 0 {
+												dev++
+											}
+											if ann {
+												dev++
+											}
+											if desc {
+												dev++
+											}
+											if qi != 0 && len(rl) == 2 && dev > 1 {
+												continue
+											}
+											e := exp{}
+											m := doc.N("POST")
+											if ann {
+												m.Ann = "does things"
+											}
+											if desc {
+												m.Kids = append(m.Kids, doc.N("Description").WithBody("Long text\n  indented more"))
+											}
+											if qy.build != nil {
+												m.Kids = append(m.Kids, qy.build())
+											}
+											if q.build != nil {
+												m.Kids = append(m.Kids, q.build())
+											}
 											for k, ri := range rl {
-												rp := fmt.Sprintf("%s.responses[%d]", p, k)
-												e[rp+".code"] = codes[k]
-												rf[ri].exp(e, rp)
+												m.Kids = append(m.Kids, rf[ri].build(codes[k]))
 											}
+											if kidOrder == 1 {
+												// the responses first (in their order), then the other children in reverse
+												var resp, rest []*doc.Node
+												for _, kd := range m.Kids {
+													if len(kd.Kw) == 3 && kd.Kw[0] >= '1' && kd.Kw[0] <= '5' {
+														resp = append(resp, kd)
+													} else {
+														rest = append([]*doc.Node{kd}, rest...)
+													}
+												}
+												m.Kids = append(resp, rest...)
+											}
+											if tagMode == 1 || tagMode == 3 {
+												m.Kids = append(m.Kids, doc.N("Tags", "@own"))
+											}
+											path := "/focus"
+											id := "http POST " + path
+											nodes := []*doc.Node{doc.Jsight()}
+											nodes = append(nodes, fillerTypes(e)...)
+											var ids []string
+											other := doc.N("GET").WithKids(doc.N("204", "empty"))
+											switch pl {
+											case "after-tagged-url":
+												// an implicit URL block with URL-level Tags, directly followed by the path-bearing focus
+												nodes = append(nodes, doc.N("TAG", "@grp"), doc.N("URL", "/tagged").WithKids(doc.N("Tags", "@grp"), doc.N("GET").WithKids(doc.N("204", "empty"))))
+												m.Params = []string{path}
+												nodes = append(nodes, m)
+												ids = []string{"http GET /tagged", id}
+												e["$.interactions.http GET /tagged.tags[0]"] = "@grp"
+											case "top":
+												m.Params = []string{path}
+												m.Paren = len(m.Kids) > 0
+												nodes = append(nodes, m)
+												ids = []string{id}
+											default:
+												u := doc.N("URL", path)
+												u.Paren = strings.Contains(pl, "paren")
+												if tagMode >= 2 {
+													u.Kids = append(u.Kids, doc.N("Tags", "@ugrp"))
+												}
+												m.Paren = len(m.Kids) > 0 // keep the focus self-delimiting inside the block
+												if strings.HasSuffix(pl, "first") {
+													u.Kids = append(u.Kids, m, other)
+													ids = []string{id, "http GET " + path}
+												} else {
+													u.Kids = append(u.Kids, other, m)
+													ids = []string{"http GET " + path, id}
+												}
+												nodes = append(nodes, u)
+											}
+											nodes = append(nodes, doc.N("TYPE", "@after", "any"))
+											e[keysPath("interactions")] = strings.Join(ids, "|")
+											e[keysPath("userTypes")] = "@t|@u|@after"
+											e["$.info"] = absent
+											e["$.servers"] = absent
+											e["$.userEnums"] = absent
+											e["$.jsight"] = "0.3"
+											p := "$.interactions." + id
+											e[p+".id"] = id
+											e[p+".protocol"] = "http"
+											e[p+".httpMethod"] = "POST"
+											e[p+".path"] = path
+											e[p+".pathVariables"] = absent
+											e[p+".tags.#len"] = "1"
+											switch tagMode {
+											case 0:
+												e[p+".tags[0]"] = "@focus"
+											case 1, 3:
+												e[p+".tags[0]"] = "@own" // the method's own Tags win
+											case 2:
+												e[p+".tags[0]"] = "@ugrp"
+											}
+											if tagMode != 0 {
+												nodes = append(nodes, doc.N("TAG", "@own").WithAnn("Own"), doc.N("TAG", "@ugrp"))
+												e["$.tags.@own.title"] = "Own"
+												e["$.tags.@ugrp.title"] = "@ugrp"
+												if isURL {
+													// the sibling method has no Tags of its own
+													sib := "@focus"
+													if tagMode >= 2 {
+														sib = "@ugrp"
+													}
+													e["$.interactions.http GET "+path+".tags.#len"] = "1"
+													e["$.interactions.http GET "+path+".tags[0]"] = sib
+												}
+											}
+											if ann {
+												e[p+".annotation"] = "does things"
+											} else {
+												e[p+".annotation"] = absent
+											}
+											if desc {
+												e[p+".description"] = "Long text\n  indented more"
+											} else {
+												e[p+".description"] = absent
+											}
+											qy.exp(e, p+".query")
+											q.exp(e, p+".request")
+											if len(rl) == 0 {
+												e[p+".responses"] = absent
+											} else {
+												e[p+".responses.#len"] = fmt.Sprint(len(rl))
+												for k, ri := range rl {
+													rp := fmt.Sprintf("%s.responses[%d]", p, k)
+													e[rp+".code"] = codes[k]
+													rf[ri].exp(e, rp)
+												}
+											}
+											if len(ids) == 2 && pl != "after-tagged-url" {
+												op := "$.interactions.http GET " + path
+												e[op+".httpMethod"] = "GET"
+												e[op+".responses.#len"] = "1"
+												e[op+".responses[0].code"] = "204"
+												e[op+".request"] = absent
+												e[op+".query"] = absent
+											}
+											names := []string{}
+											for _, ri := range rl {
+												names = append(names, rf[ri].name)
+											}
+											label := fmt.Sprintf("http %s req=%s resp=%v codes=%v query=%s ann=%v desc=%v tags=%d kids=%d style=%s", pl, q.name, names, codes, qy.name, ann, desc, tagMode, kidOrder, style)
+											judge(label, nodes, e, style)
 										}
-										if len(ids) == 2 && pl != "after-tagged-url" {
-											op := "$.interactions.http GET " + path
-											e[op+".httpMethod"] = "GET"
-											e[op+".responses.#len"] = "1"
-											e[op+".responses[0].code"] = "204"
-											e[op+".request"] = absent
-											e[op+".query"] = absent
-										}
-										names := []string{}
-										for _, ri := range rl {
-											names = append(names, rf[ri].name)
-										}
-										label := fmt.Sprintf("http %s req=%s resp=%v codes=%v query=%s ann=%v desc=%v tags=%d style=%s", pl, q.name, names, codes, qy.name, ann, desc, tagMode, style)
-										judge(label, nodes, e, style)
 									}
 								}
 							}
@@ -595,42 +612,50 @@ func runC04(c *fw.Ctx) {
 					m.Kids = append(m.Kids, doc.N("Result").WithBody("[@t]"))
 				}
 				m.Paren = len(m.Kids) > 0
-				other := doc.N("Method", "other")
-				u := doc.N("URL", "/rpc")
-				u.Paren = paren
-				ids := []string{"json-rpc-2.0 do.it /rpc", "json-rpc-2.0 other /rpc"}
-				if second {
-					u.Kids = []*doc.Node{doc.N("Protocol", "json-rpc-2.0"), other, m}
-					ids = []string{ids[1], ids[0]}
-				} else {
-					u.Kids = []*doc.Node{doc.N("Protocol", "json-rpc-2.0"), m, other}
-				}
-				nodes := append([]*doc.Node{doc.Jsight()}, fillerTypes(e)...)
-				nodes = append(nodes, u, doc.N("TYPE", "@after", "any"))
-				p := "$.interactions.json-rpc-2.0 do.it /rpc"
-				e[keysPath("interactions")] = strings.Join(ids, "|")
-				e[p+".id"] = "json-rpc-2.0 do.it /rpc"
-				e[p+".protocol"] = "json-rpc-2.0"
-				e[p+".method"] = "do.it"
-				e[p+".path"] = "/rpc"
-				e[p+".httpMethod"] = absent
-				setOrAbsent(e, p+".annotation", ann, "rpc note")
-				setOrAbsent(e, p+".description", desc, "rpc text")
-				if params {
-					baByName("obj").digest(e, p+".params.schema")
-				} else {
-					e[p+".params"] = absent
-				}
-				if result {
-					baByName("arr").digest(e, p+".result.schema")
-				} else {
-					e[p+".result"] = absent
-				}
-				e["$.interactions.json-rpc-2.0 other /rpc.method"] = "other"
-				e["$.interactions.json-rpc-2.0 other /rpc.params"] = absent
-				for _, style := range styles {
-					judge(fmt.Sprintf("rpc paren=%v second=%v mask=%d style=%s", paren, second, mask, style), nodes, e, style)
-				}
+				kidsInOrder := append([]*doc.Node{}, m.Kids...)
+				permutations(len(kidsInOrder), func(perm []int) bool {
+					m.Kids = nil
+					for _, pi := range perm {
+						m.Kids = append(m.Kids, kidsInOrder[pi])
+					}
+					other := doc.N("Method", "other")
+					u := doc.N("URL", "/rpc")
+					u.Paren = paren
+					ids := []string{"json-rpc-2.0 do.it /rpc", "json-rpc-2.0 other /rpc"}
+					if second {
+						u.Kids = []*doc.Node{doc.N("Protocol", "json-rpc-2.0"), other, m}
+						ids = []string{ids[1], ids[0]}
+					} else {
+						u.Kids = []*doc.Node{doc.N("Protocol", "json-rpc-2.0"), m, other}
+					}
+					nodes := append([]*doc.Node{doc.Jsight()}, fillerTypes(e)...)
+					nodes = append(nodes, u, doc.N("TYPE", "@after", "any"))
+					p := "$.interactions.json-rpc-2.0 do.it /rpc"
+					e[keysPath("interactions")] = strings.Join(ids, "|")
+					e[p+".id"] = "json-rpc-2.0 do.it /rpc"
+					e[p+".protocol"] = "json-rpc-2.0"
+					e[p+".method"] = "do.it"
+					e[p+".path"] = "/rpc"
+					e[p+".httpMethod"] = absent
+					setOrAbsent(e, p+".annotation", ann, "rpc note")
+					setOrAbsent(e, p+".description", desc, "rpc text")
+					if params {
+						baByName("obj").digest(e, p+".params.schema")
+					} else {
+						e[p+".params"] = absent
+					}
+					if result {
+						baByName("arr").digest(e, p+".result.schema")
+					} else {
+						e[p+".result"] = absent
+					}
+					e["$.interactions.json-rpc-2.0 other /rpc.method"] = "other"
+					e["$.interactions.json-rpc-2.0 other /rpc.params"] = absent
+					for _, style := range styles {
+						judge(fmt.Sprintf("rpc paren=%v second=%v mask=%d order=%v style=%s", paren, second, mask, perm, style), nodes, e, style)
+					}
+					return true
+				}) // the children of the method in every order
 			}
 		}
 	}
